@@ -16,7 +16,9 @@
 (* and that To/From are inverse.  Deviations (Dev): "carry-always-one" (the *)
 (* low limb of acc + q*M is assumed to carry -- wrong when acc[0] = 0, the  *)
 (* seeded change C06_r2m1), "add-no-final-sub" (only the carry out of the   *)
-(* addition triggers the subtraction -- C06_m2), "opp-zero-is-m" (C12_r2m2).*)
+(* addition triggers the subtraction -- C06_m2), "opp-zero-is-m" (C12_r2m2),*)
+(* "mul-final-sub-on-overflow-only" (the product is reduced only when it    *)
+(* overflowed R: values in [M, R) stay -- C05_r5m1, C11_r5m1, C12_r4m1).    *)
 (***************************************************************************)
 EXTENDS Integers, Sequences, SequencesExt
 
@@ -42,7 +44,8 @@ CondSub(x) == IF x >= M THEN x - M ELSE x
 
 Mul(a, b) ==
   LET limbs == [i \in 1..K |-> (a \div P2(WBits * (i - 1))) % Wd]
-  IN  CondSub(FoldLeft(LAMBDA acc, ai : MulStep(acc, ai, b), 0, limbs))
+      t == FoldLeft(LAMBDA acc, ai : MulStep(acc, ai, b), 0, limbs)
+  IN  IF Dev = "mul-final-sub-on-overflow-only" THEN (IF t >= R THEN t - M ELSE t) ELSE CondSub(t)
 Square(a) == Mul(a, a)
 
 Add(a, b) ==
